@@ -134,3 +134,11 @@ func VerifSanityCheckSubscribersDelta(subscribers, delta int) (panicked bool) {
 	x.sanityCheckSubscribersDelta(subscribers, delta)
 	return false
 }
+
+// b2i is used by verification points to pass a boolean.
+func b2i(b bool) int {
+	if b {
+		return 1
+	}
+	return 0
+}
